@@ -30,7 +30,7 @@ EXHAUSTIVE = {'quick': False, 'thorough': True}
 PYOPT_KINDS = ('random',)
 SECTIONS = ('lua', 'gfx', 'gff', 'map', 'sfx', 'music')
 CHOICES = ('none', 'p8', 'png', 'empty')
-OUT_STATES = ('absent', 'p8', 'p8label', 'png')
+OUT_STATES = ('absent', 'p8', 'p8label', 'png', 'p8blacklabel')
 TIMEOUT = {'quick': 1200, 'thorough': 10800}
 
 
@@ -169,7 +169,8 @@ def run_build(ctx, rng, pool, root, assign, out_state, out_fmt, lua_from_file, r
         pregions, pcode = write_out_state(rng, out_state, out)
         prev = dict(pregions, lua=pcode)
         if out_fmt == 'p8':
-            prev_label = carts.random_bytes(rng, 8192) if out_state == 'p8label' else None
+            # (a label that is entirely colour 0 is a label section like any other)
+            prev_label = carts.random_bytes(rng, 8192) if out_state == 'p8label' else bytes(8192) if out_state == 'p8blacklabel' else None
             data = rc.write_p8(pregions, pcode, version=8, label=prev_label)
         else:
             prev_rows = [bytearray(carts.random_bytes(rng, rc.CART_W * 4)) for _ in range(rc.CART_H)]
@@ -509,7 +510,7 @@ def gates(m, tier):
                 missed.append('%s:%s seen %d times' % (sec, ch, f.get('%s:%s' % (sec, ch), 0)))
     if f.get('lua:luafile', 0) < 3:
         missed.append('lua from a .lua file: %d' % f.get('lua:luafile', 0))
-    for s in ('absent', 'p8', 'p8label', 'png'):
+    for s in OUT_STATES:
         if f.get('out_state:' + s, 0) < 3:
             missed.append('OUT state %s: %d' % (s, f.get('out_state:' + s, 0)))
     for s in ('p8', 'png'):
